@@ -128,7 +128,19 @@ def b3(chk, tier, stats):
     stats["generated"] = stats.get("generated", 0) + r.generated
     for v in r.violated:
         chk.violation("model:LoopExtract N=%d" % n, "model-invariant:" + v, {"tlc_tail": r.out[-5000:]})
-    return {"N": n, "distinct": r.distinct, "generated": r.generated, "violated": r.violated, "liveness_checked": n == 3}
+    out = {"N": n, "distinct": r.distinct, "generated": r.generated, "violated": r.violated, "liveness_checked": n == 3}
+    if tier == "thorough":
+        # beyond what finishes exhaustively: random behaviours of the machine on the 38 912 rooted digraphs with 4 nodes
+        cfg4 = "SPECIFICATION Spec\nCONSTANT N = 4\nINVARIANT AllAcyclicSingleEntry\nINVARIANT Partition\nINVARIANT CyclesInside\n" \
+               "INVARIANT BoundedLoops\n"
+        r4 = tlc.run_tlc("LoopExtract", cfg4, None, modules=["LoopExtract"], workers=8, jvm="throughput", timeout=3000, heap="6g",
+                         simulate="num=2000", depth=12)
+        stats["states"] = stats.get("states", 0) + r4.distinct
+        stats["generated"] = stats.get("generated", 0) + r4.generated
+        for v in r4.violated:
+            chk.violation("model:LoopExtract N=4 (simulation)", "model-invariant:" + v, {"tlc_tail": r4.out[-5000:]})
+        out["simulation_N4"] = {"behaviours": 2000, "states_visited": r4.generated, "violated": r4.violated}
+    return out
 
 
 def run(chk, tier, seed):
